@@ -72,6 +72,7 @@ def gen_stage(tape, name, cleanups, allow_cleanup, n, hot=1):
     side = []
     for _ in range(tape.weighted("program", [(7, 0), (3, 1), (1, 2)], "n-side")):
         k = tape.weighted("program", [(hot, "leave_call"), (1 if hot > 1 else 0, "selectable"), (hot, "log_err"), (hot, "drop_failed"),
+                                      (1, "drop_failed_in_cycle"),
                                       (4 if allow_cleanup and len(cleanups) < 3 else 0, "cleanup"), (2, "nothing"),
                                       (1 if allow_cleanup else 0, "own_observer")], "side")
         if k == "nothing":
@@ -157,7 +158,7 @@ def model(stages, cleanups, cfg, events):
                     m["logged"] = 0      # flush_logged_errors() clears everything logged so far
                 else:
                     m["logged"] += 1
-            elif s[0] == "drop_failed":
+            elif s[0] in ("drop_failed", "drop_failed_in_cycle"):
                 m["unhandled"] += 1
             elif s[0] == "interrupt":
                 inner.append((t, len(m["starts"]) - 1, s[1]))
@@ -288,6 +289,11 @@ def run_one(tape, opts):
                     rt.flush_logged_errors()
             elif s[0] == "drop_failed":
                 defer.fail(RuntimeError("dropped-" + spec["marker"]))
+            elif s[0] == "drop_failed_in_cycle":
+                # dropped as well, but part of a reference cycle: only the cyclic collector frees it,
+                # whenever that happens to run (here: inside the follow-up test)
+                ring = [defer.fail(RuntimeError("dropped-" + spec["marker"]))]
+                ring.append(ring)
             elif s[0] == "interrupt":
                 # the outside world exists only while the reactor is started (a stage can run
                 # late, inside Spinner._clean's iterate() calls, after the handlers were restored)
@@ -340,6 +346,7 @@ def run_one(tape, opts):
         # a trivial clean test right afterwards, same reactor, same process: whatever the first one did,
         # this one completed cleanly and must be a success
         follow = None
+        follow_details = []
         if raised is None:
             sim.drop_events()
             w2 = World()
@@ -351,6 +358,7 @@ def run_one(tape, opts):
 
             class FollowUp(testtools.TestCase):
                 def test_ok(self):
+                    gc.collect()      # the cyclic collector may run at any time: here it does
                     if cfg.get("followup_async"):
                         d = defer.Deferred()
                         reactor.callLater(0.25, d.callback, None)     # (well inside the shortest timeout)
@@ -359,6 +367,8 @@ def run_one(tape, opts):
             try:
                 FollowUp("test_ok", runTest=factory).run(t2)
                 follow = [e.method for e in w2.events if e.method in OUTCOMES]
+                follow_details = [(n, d["bytes"][:160]) for e in w2.events if e.method in OUTCOMES
+                                  for n, d in ((e.data or {}).get("details") or {}).items()]
             except BaseException as e:   # noqa
                 follow = ["raised:" + type(e).__name__]
         obs_after = (sorted(map(id, globalLogPublisher._observers)), sorted(map(id, tw_log.theLogPublisher.observers)))
@@ -436,7 +446,7 @@ def run_one(tape, opts):
         out.probe("sigint-while-the-last-stage-finishes")
     if follow is not None and follow != ["addSuccess"]:
         out.violate("leak-into-next-test", "followup:" + ("carried-interrupt:" if carried else "") + ",".join(follow)[:40],
-                    f"a trivial passing test run right after this one on the same reactor was reported as {follow}; first test: stages {stages} cfg {cfg} events {events} outcome {kind}")
+                    f"a trivial passing test run right after this one on the same reactor was reported as {follow} (details {follow_details if follow != ['addSuccess'] else ''}); first test: stages {stages} cfg {cfg} events {events} outcome {kind}")
     fired = [k for _, k in sim.fired]
     if kind is not None and m["stalled"] and raised is None:
         # a stall shifts every later timer, so the timeline model does not apply; but stalls only delay:
